@@ -1,6 +1,6 @@
 """Drive the real implementation in /repo (objects, not mocks).  Import with PYTHONPATH=/repo."""
-import logging, re, sys
-sys.path.insert(0, '/repo')
+import logging, os, re, sys
+sys.path.insert(0, os.environ.get('VERIF_REPO', '/repo'))
 from octoprint_excluderegion.ExcludeRegionState import ExcludeRegionState, IGNORE_GCODE_CMD
 from octoprint_excluderegion.GcodeHandlers import GcodeHandlers
 from octoprint_excluderegion.RectangularRegion import RectangularRegion
